@@ -20,3 +20,28 @@ TABLE = {
         'explanation': 'Every listed method of desper/math.py is executed symbolically from its real AST (loop-free after literal-length unrolling, calls inlined), and each postcondition - the textbook definition written in specs/math_spec.py - is discharged by z3 as an identity over the reals; swizzles are enumerated exhaustively.',
     },
 }
+
+T_STATE = T_GLOBAL + [
+    'T4 user objects: identity __eq__/__hash__/default truthiness; __events__ mappings not mutated while registered; instance attributes do not shadow callback names',
+    'T5 open calls (callbacks) touch verified objects only through public operations (rely), at listed sites they do not re-enter',
+]
+
+TABLE['C03'] = {
+    'modules': ['events_spec'], 'replay': 'events_replay', 'level': 'proof',
+    'trusted_base': T_STATE + ['weak references modelled as a function of their identity-compared referent'],
+    'assumptions': ['handlers have identity equality (T4); handlers with value equality are outside the model (D09)'],
+    'explanation': 'EventDispatcher methods verified against the representation invariant wf_D (the two tables are inverse and list exactly the class-level event mappings) and a per-activation call log.',
+}
+
+TABLE['C04'] = {
+    'modules': ['events_spec'], 'replay': 'events_replay', 'level': 'proof',
+    'trusted_base': T_STATE,
+    'assumptions': ['site assumption (C04 quantifier): callbacks run during a release may raise, disable dispatching, dispatch and (un)register handlers; they do not clear the dispatcher nor re-enable dispatching (two-state rely: queue append-only, no nested enable)'],
+    'explanation': 'Normal and exceptional postconditions of dispatch and of the dispatch_enabled setter over the ghost invocation log dlog and the pending queue; loop invariant with ghost counter k and a decreases clause (termination).',
+}
+TABLE['C10'] = {
+    'modules': ['events_spec'], 'replay': 'events_replay', 'level': 'proof',
+    'trusted_base': T_STATE + ['T7 CPython finalises an object and runs its weak-reference callbacks when its last strong reference disappears (ghost `alive`, shrinking across open calls; registered => alive is part of wf_D)'],
+    'assumptions': ['ownership: the dispatcher fields are declared with sorts that admit weak references, class-level functions, strings and argument packs only; a store of any other field is a failed frame obligation'],
+    'explanation': 'receiver-not-None obligation at every callback site, wf_D clause E3 (every stored reference is alive), _remove_weak_handler removes the reference from both tables.',
+}
